@@ -1520,9 +1520,20 @@ class H2Connection:
         control windows by the delta in the settings values.
         """
         delta = new_value - old_value
+        frames = []
 
         for stream in self.streams.values():
             stream._inbound_flow_control_change_from_settings(delta)
+
+            # With the new window size, the bytes the user has acknowledged
+            # so far may be due back now (a smaller window may be exhausted
+            # where the old one was not). If nothing more is acknowledged
+            # later, this is the last chance to return them: without it the
+            # stream would stall. No point doing this for closed streams.
+            if stream.open:
+                frames.extend(stream.acknowledge_received_data(0))
+
+        self._prepare_for_sending(frames)
 
     def receive_data(self, data):
         """
